@@ -110,7 +110,8 @@ def pick_cases(k, s1, s2, s3, s4, which=0):
     return out
 
 
-def body_cases(E, k, s1, s2, s3, s4, nsub, kind, dictsp, flat, via, base, shuf, j1, j2, j3, j4, j5, pool=0):
+def body_cases(E, k, s1, s2, s3, s4, nsub, kind, dictsp, flat, via, base, shuf, j1, j2, j3, j4, j5, pool=0,
+               asiter=False):
     k = concretize(k, 1, 4)
     nsub = concretize(nsub, 0, 2)
     kind = concretize(kind, 0, 5)
@@ -133,12 +134,14 @@ def body_cases(E, k, s1, s2, s3, s4, nsub, kind, dictsp, flat, via, base, shuf, 
         opts = {}
         if cbool(shuf):
             opts["shuffle"] = env.seed_for(js[:N], N)
+        given = cases if cases is not None else (pts if via == 1 else [dict(a=a, b=b) for a, b in pts])
+        if cbool(asiter):
+            given = iter(list(given))          # a one-shot iterator ("iterable[dict] / iterable[tuple]")
         if via == 1:
-            out = case_runner(fn, ("a", "b"), cases if cases is not None else pts, combos=combos, verbosity=0, **opts)
+            out = case_runner(fn, ("a", "b"), given, combos=combos, verbosity=0, **opts)
             flat = True
         else:
-            out = combo_runner(fn, combos, cases=cases if cases is not None else [dict(a=a, b=b) for a, b in pts],
-                               flat=flat, verbosity=0, **opts)
+            out = combo_runner(fn, combos, cases=given, flat=flat, verbosity=0, **opts)
         subs = SUB[:nsub] if nsub else [0]
         want_calls = [(a, b, c) for a, b in pts for c in subs]
         # called exactly once for each requested setting and never for any other
@@ -242,6 +245,13 @@ CONDS = (
                  ["1 <= k <= 2 and 1 <= nsub <= 2 and via == 0 and not shuf and s3 == 0 and s4 == 0 and 0 <= kind <= 4",
                   _S, _NOJ, "k >= 2 or s2 == 0"], timeout=400,
                  bounds="1-2 cases crossed with a sub-grid of 1-2 values of a third argument, all result kinds"),
+       make_cond(_G, "iter_cases", body_cases, _SIG,
+                 ["1 <= k <= 3 and 0 <= nsub <= 2 and 0 <= via <= 1 and not shuf and s4 == 0 and kind == 0",
+                  _S, _NOJ, "k >= 2 or s2 == 0", "k >= 3 or s3 == 0", "via == 0 or not flat", "s1 <= 1 and s2 <= 1 and s3 <= 1"],
+                 fixed=dict(asiter=True), timeout=400,
+                 bounds="cases given as a one-shot iterator (of dicts or tuples), 1-3 cases, optional sub-grid, "
+                        "combo_runner(cases=) and case_runner, nested and flat: every case is run, flat output "
+                        "is case-major"),
     ] + split_conds(_G, "valtypes", body_cases, _SIG,
                  ["1 <= k <= 3 and nsub == 0 and 0 <= via <= 1 and not shuf and s4 == 0 and kind == 0",
                   _S, _NOJ, "k >= 2 or s2 == 0", "k >= 3 or s3 == 0", "via == 0 or not flat"], "pool", [1, 2], timeout=400,
